@@ -3,8 +3,8 @@
 From Coq Require Import List ZArith Bool String Lia.
 From RG.Base Require Import Outcome GoInt GoSlice.
 From RG.Engine Require Import TruncateSpec.
-From RG.Filters Require Import FilterIR Totality.
-From RGW Require Import Gen_FilterTotal Inst_C07 Gen_Truncate Gen_C15Extras Inst_Truncate.
+From RG.Filters Require Import FilterIR Totality TotalityExt.
+From RGW Require Import Gen_FilterTotal Gen_FilterTotal2 Inst_C07 Gen_Truncate Gen_C15Extras Inst_Truncate.
 Import ListNotations.
 Local Open Scope string_scope.
 
@@ -25,10 +25,16 @@ Theorem C07_unguarded_position_refuted : forall ac tg tf, ac_pos ac = true -> ac
 Proof. exact unguarded_pos_crashes. Qed.
 Print Assumptions C07_unguarded_position_refuted.
 
-(* message / suggestion interpolation of any capture *)
-Theorem C07_render_total : forall s, render_capture gen_render_skips_typed_nil gen_nodetext_guarded s = Ok tt.
+(* message / suggestion interpolation of any capture -- also one that is no node at all (a nil ast.Node) *)
+Theorem C07_render_total : forall s,
+  render_capture gen_render_reflects gen_render_nil_iface_first gen_render_drops_typed_nil gen_nodetext_guarded s = Ok tt.
 Proof. exact render_total_gen. Qed.
 Print Assumptions C07_render_total.
+
+(* the nil test in front of reflect is necessary (what the unfixed tree did on `switch $*x { ... }` without init and tag) *)
+Theorem C07_render_reflect_on_nil_refuted : forall skips tg, render_capture true false skips tg ShNilIface = Panic PExplicit.
+Proof. exact render_reflect_on_nil_iface_crashes. Qed.
+Print Assumptions C07_render_reflect_on_nil_refuted.
 
 (* ... also when the text of the capture cannot be sliced out of the file (a file that exists in memory only, a saved version
    that is shorter than the analysed one) and has to be printed: whatever kind of node the capture is *)
@@ -38,7 +44,8 @@ Proof. exact closure_total_on. Qed.
 Print Assumptions C07_filters_total_any_file.
 
 Theorem C07_render_total_any_file : forall readable s c,
-  render_capture_on gen_render_skips_typed_nil gen_nodetext_guarded gen_text_print_handled gen_text_print_recursive readable s c = Ok tt.
+  render_capture_on gen_render_reflects gen_render_nil_iface_first gen_render_drops_typed_nil gen_nodetext_guarded
+    gen_text_print_handled gen_text_print_recursive readable s c = Ok tt.
 Proof. exact render_total_on_gen. Qed.
 Print Assumptions C07_render_total_any_file.
 
@@ -56,17 +63,25 @@ Theorem C07_truncate_total : forall s L, go_input s L -> exists r, truncateText 
 Proof. exact truncate_never_panics. Qed.
 Print Assumptions C07_truncate_total.
 
-(* the report: a non-absent node whose Pos()/End() are defined, also when At() names a capture that matched nothing *)
-Theorem C07_report_wellformed : forall root loc, absent root = false ->
-  absent (report_node gen_location_guarded root loc) = false /\ node_pos (report_node gen_location_guarded root loc) = Ok tt.
-Proof. rewrite location_guarded. exact report_wellformed. Qed.
+(* the report: whatever the match root (also the empty list a `$*xs; $*ys` pattern matches) and whatever At() names (also a
+   capture that matched nothing), a report that is delivered has a non-absent node whose Pos()/End() are defined *)
+Theorem C07_report_wellformed : forall root loc n,
+  deliver gen_match_root_guarded gen_location_guarded root loc = Some n -> absent n = false /\ node_pos n = Ok tt.
+Proof. exact delivered_wellformed. Qed.
 Print Assumptions C07_report_wellformed.
 
+(* the root guard is necessary: without it the empty match is delivered and Pos() indexes element 0 (the unfixed tree) *)
+Theorem C07_unguarded_root_refuted : forall loc_guarded,
+  deliver false loc_guarded (ShList 0) None = Some (ShList 0) /\ node_pos (ShList 0) = Panic PIndex.
+Proof. exact deliver_unguarded_root_malformed. Qed.
+Print Assumptions C07_unguarded_root_refuted.
+
+(* positions: with go/parser's ranges for non-absent nodes as hypothesis (it does not hold for the node lists gogrep builds out
+   of source order -- C07_reversed_list_malformed, known finding), every delivered report lies inside the file *)
 Theorem C07_report_positions_inside_file : forall (file_len : nat) (pos end_ : cshape -> nat),
   (forall s, absent s = false -> pos s <= end_ s <= file_len) ->
-  forall root loc, absent root = false ->
-  pos (report_node true root loc) <= end_ (report_node true root loc) <= file_len.
-Proof. exact report_positions_inside_file. Qed.
+  forall root loc n, deliver true true root loc = Some n -> pos n <= end_ n <= file_len.
+Proof. exact delivered_positions_inside_file. Qed.
 Print Assumptions C07_report_positions_inside_file.
 
 Theorem C07_report_builder_and_helpers_ok :
@@ -74,6 +89,65 @@ Theorem C07_report_builder_and_helpers_ok :
   gen_libdsl_sizeof_guarded && gen_sinktype_kv_guarded = true.
 Proof. exact (conj report_builder_ok helpers_ok). Qed.
 Print Assumptions C07_report_builder_and_helpers_ok.
+
+(* ---- nested types: hasKnownSize (regenerated structure) against Sizeof, for every well-formed type *)
+Theorem C07_known_size_sound : forall t, wfb t = true -> known_size gen_known_size t = true -> sizeof t = Ok tt.
+Proof. exact known_size_sound_gen. Qed.
+Print Assumptions C07_known_size_sound.
+
+Theorem C07_toplevel_size_test_refuted :
+  known_size ks_toplevel_only (TArray TParam) = true /\ sizeof (TArray TParam) = Panic PExplicit /\
+  known_size ks_toplevel_only (TStruct [TBasic false; TParam]) = true /\ sizeof (TStruct [TBasic false; TParam]) = Panic PExplicit /\
+  known_size ks_toplevel_only (TNamed (TStruct [TArray (TBasic true)])) = true /\ sizeof (TNamed (TStruct [TArray (TBasic true)])) = Panic PExplicit.
+Proof. exact toplevel_test_refuted. Qed.
+Print Assumptions C07_toplevel_size_test_refuted.
+
+(* ---- matcher states: the list walk of the rule loop over any block, whatever the Contains() sub-patterns allocate *)
+Theorem C07_list_walk_total : forall steps n cb st rest, st gen_main_state_origin = n :: rest ->
+  walk steps gen_main_state_origin gen_sub_state_origin n cb st = Ok tt.
+Proof. exact list_walk_total. Qed.
+Print Assumptions C07_list_walk_total.
+
+Theorem C07_shared_matcher_state_refuted : walk 2 "s" "s" 5 (fun _ => [1]) (fun _ => [5; 5]) = Panic PSliceBounds.
+Proof. exact walk_shared_crashes. Qed.
+Print Assumptions C07_shared_matcher_state_refuted.
+
+(* ---- recursion over nested types: alias nodes at any depth (gotypesalias=1) never reach xtypes' panicking default *)
+Theorem C07_type_recursion_total : forall t, heads_in gen_xtypes_cases t = true ->
+  traverse gen_xtypes_unaliased_in_recursion gen_xtypes_default_panics gen_xtypes_cases t = Ok tt.
+Proof. exact type_recursion_total. Qed.
+Print Assumptions C07_type_recursion_total.
+
+Theorem C07_hoisted_unalias_refuted : forall cases, mem "*types.Slice" cases = true ->
+  traverse false true cases (unalias (GAlias (GNode "*types.Slice" [GAlias (GNode "*types.Basic" [])]))) = Panic PExplicit.
+Proof. exact hoisted_unalias_refuted. Qed.
+Print Assumptions C07_hoisted_unalias_refuted.
+
+Theorem C07_recursion_sites_ok :
+  gen_xtypes_unaliased_in_recursion && descents_ok "typeIdentical" gen_xtypes_descents && cases_complete gen_xtypes_cases &&
+  Nat.eqb (List.length gen_xtypes_other_switches) 0 && Nat.leb 1 (List.length gen_xtypes_descents) = true /\
+  gen_typematch_unaliased_in_recursion && descents_ok "matchIdentical" gen_typematch_descents &&
+  indexes_guarded gen_typematch_decremented_indexes && Nat.leb 1 (List.length gen_typematch_decremented_indexes) &&
+  Nat.leb 1 (List.length gen_typematch_descents) = true /\
+  forallb snd gen_sinktype_kv_cases && Nat.leb 2 (List.length gen_sinktype_kv_cases) = true /\ gen_nodetext_ordered = true.
+Proof. exact (conj xtypes_recursion_ok (conj typematch_recursion_ok (conj sinktype_kv_ok nodetext_ordered))). Qed.
+Print Assumptions C07_recursion_sites_ok.
+
+(* ---- typematch: the variadic test of a function pattern with any number of parameters (also none) *)
+Theorem C07_variadic_test_total : forall params,
+  exists b, variadic_mismatch (indexes_guarded gen_typematch_decremented_indexes) params = Ok b.
+Proof. exact variadic_test_total. Qed.
+Print Assumptions C07_variadic_test_total.
+
+Theorem C07_variadic_test_unguarded_refuted : variadic_mismatch false [] = Panic PIndex.
+Proof. exact variadic_mismatch_unguarded_crashes. Qed.
+Print Assumptions C07_variadic_test_unguarded_refuted.
+
+(* ---- known finding if-opt-capture-reversed: a node list that is not in source order has Pos() behind End() *)
+Theorem C07_reversed_list_malformed : forall cp ce ip ie, ip < ie -> ie < cp -> cp < ce ->
+  exists p e, list_pos [(cp, ce); (ip, ie)] = Some p /\ list_end [(cp, ce); (ip, ie)] = Some e /\ e < p.
+Proof. exact reversed_list_malformed. Qed.
+Print Assumptions C07_reversed_list_malformed.
 
 (* non-vacuity *)
 Example c07_line_filter_profile :
@@ -84,6 +158,15 @@ Example c07_line_filter_profile :
                               true (ShList 0) {| tf_untyped := false; tf_obj_nil := false |} = Panic PIndex
   | None => False
   end.
+Proof. vm_compute. repeat split. Qed.
+
+Example c07_nested_types :
+  known_size gen_known_size (TArray TParam) = false /\ known_size gen_known_size (TNamed (TStruct [TBasic false; TAlias TParam])) = false /\
+  known_size gen_known_size (TStruct [TOpaque; TArray (TNamed (TBasic false))]) = true /\
+  sizeof (TStruct [TOpaque; TArray (TNamed (TBasic false))]) = Ok tt /\
+  heads_in gen_xtypes_cases (GNode "*types.Slice" [GAlias (GNode "*types.Basic" [])]) = true /\
+  deliver gen_match_root_guarded gen_location_guarded (ShList 0) (Some ShNode) = None /\
+  deliver gen_match_root_guarded gen_location_guarded (ShList 2) (Some ShNilIface) = Some (ShList 2).
 Proof. vm_compute. repeat split. Qed.
 
 Example c07_report_at_empty_list :
